@@ -261,3 +261,179 @@ def rule_readback(ctx, rule):
             ctx.report(rule, key, "the value %s is printed as %r; quoted and read back that is %s, expected %s" % (
                 label, txt, got, readtables.show(want)), where_of(vf))
     return decided
+
+
+# ------------------------------------------------------------------------------------------------ finite reals: print, read back
+
+REAL_SAMPLES = [1.0, -1.0, 0.0, -0.0, 1.5, -2.25, 0.1, 0.3, 100.0, 123456.79, 9999999.0, 16777216.0, 2147483648.0, -2147483648.0, 4294967296.0,
+                1e10, -1e10, 1e15, 1e16, 1e20, 3.4028235e38, 1e-4, 1e-5, 1e-7, 1.17549435e-38, 0.33333334, 65536.0, 1e9, 2147483500.0]
+
+
+def rule_real_readback(ctx, rule):
+    """finite reals across the magnitudes (fractions, integral values below and above 2^24 / 2^31 / 2^32, powers of ten up to the
+    largest, the smallest normal, both zeros), alone and inside a list and a vector: the printed text is a real literal for the
+    crate's reader and denotes the same binary32 number — not an integer, not a syntax error"""
+    from . import readtables
+    from .ctx import where_of
+    from .rustfloat import f32
+    import math
+    fb = ctx.fb()
+    vf = fb.find("<values::Value as std::fmt::Display>::fmt")
+    m = Mk(fb)
+    decided = 0
+    for v in REAL_SAMPLES:
+        x = f32(v)
+        for ctxname, wrap, unwrap in (("alone", lambda r: r, lambda d: d),
+                                      ("in-a-list", lambda r: m.lst([m.value("Symbol", "a"), r]), lambda d: d[1][1] if d[0] == "list" and len(d[1]) == 2 else None),
+                                      ("in-a-vector", lambda r: m.vec([r]), lambda d: d[1][0] if d[0] == "vec" and len(d[1]) == 1 else None)):
+            if ctxname != "alone" and v not in (1.0, 4294967296.0, 1e20, 0.1, -0.0):
+                continue
+            key = "real/%r/%s" % (v, ctxname)
+            t = print_value(fb, wrap(m.number("Real", x)))
+            if isinstance(t, tuple):
+                ctx.undecided(rule, key, "cannot follow the printer on the real %r (%s)" % (v, t[1]), where_of(vf))
+                continue
+            txt, holes = fill(t)
+            if holes:
+                ctx.undecided(rule, key, "the printed text of the real %r has parts that are not known text (%r)" % (v, t), where_of(vf))
+                continue
+            r = readtables.read(fb, "'" + txt + " ")
+            if r[0] == "stuck":
+                ctx.undecided(rule, key, "cannot follow the reader on the printed text %r (%s)" % (txt, r[1]), where_of(vf))
+                continue
+            decided += 1
+            got, why = None, None
+            if r[0] != "datum":
+                why = "a syntax error (%s)" % (r[1],) if r[0] == "error" else repr(r)
+            elif not (r[1][0] == "list" and len(r[1][1]) == 2 and r[1][1][0] == ("sym", "quote")) or r[2] != r[3]:
+                why = "%s%s" % (readtables.show(r[1]), "" if r[2] == r[3] else " followed by unread tokens")
+            else:
+                d = unwrap(r[1][1][1])
+                if d is None or d[0] != "real":
+                    why = "%s, which is not a real (the exactness, or the structure, changed)" % readtables.show(r[1][1][1])
+                else:
+                    try:
+                        back = f32(float(d[1]))
+                    except ValueError:
+                        back = None
+                    if back is None or not (back == x and math.copysign(1.0, back) == math.copysign(1.0, x)):
+                        why = "the real %s, another number" % d[1]
+            good = why is None
+            ctx.inst(rule, key, {"printed": txt, "reads_back": good})
+            ctx.oblige(good)
+            if not good:
+                ctx.report(rule, key, "the finite real %r (%s) is printed as %r; quoted and read back that is %s" % (v, ctxname, txt, why), where_of(vf))
+    return decided
+
+
+# ------------------------------------------------------------------------------------------------ values do not print where they were typed
+
+def rule_position_free(ctx, rule):
+    """the text printed for a user procedure (as a value, hence also inside error messages that quote a value) is the same wherever
+    its lambda expression was typed: two procedures that differ only in the line / column of their parameter list and body print alike"""
+    from . import evaltables
+    from .ctx import where_of
+    fb = ctx.fb()
+    vf = fb.find("<values::Value as std::fmt::Display>::fmt")
+    w = evaltables.World(fb)
+    decided = 0
+    for shape, fixed, rest, ndefs in (("fixed", ["a", "b"], None, 0), ("rest", ["a"], "r", 0), ("thunk-with-a-definition", [], None, 1)):
+        texts = []
+        for shift in (0, 37):
+            w.nloc = shift * 10
+            defs = [("d", w.sym("D1"))] if ndefs else []
+            sp = w.scheme_procedure(w.formals(fixed, rest), defs, [w.sym("B1"), w.call(w.sym("F"), [w.sym("X")])])
+            p = w.user(sp, evaltables.Frame(None, "closure-env"))
+            v = w.procedure_value(p)
+            v.adt = "values::Value"
+            t = print_value(fb, v)
+            texts.append(t)
+        key = "procedure/%s" % shape
+        if any(isinstance(t, tuple) for t in texts):
+            why = next(t[1] for t in texts if isinstance(t, tuple))
+            ctx.undecided(rule, key, "cannot follow the printer on a user procedure (%s)" % why, where_of(vf))
+            continue
+        a_, b_ = fill(texts[0])[0], fill(texts[1])[0]
+        decided += 1
+        good = a_ == b_
+        ctx.inst(rule, key, {"text": a_, "same_at_other_position": good})
+        ctx.oblige(good)
+        if not good:
+            ctx.report(rule, key, "a procedure prints as %r when typed at one place and as %r when the same lambda expression is typed at "
+                       "another: the transcript of a session depends on how its forms are split across lines" % (a_, b_), where_of(vf))
+    return decided
+
+
+def _holds_located(fb, ty, seen=None, depth=6):
+    """does a value of this type hold a source position (error::Located<..>) somewhere inside?"""
+    import re
+    seen = seen if seen is not None else set()
+    if "error::Located<" in ty or ty.startswith("error::Located"):
+        return True
+    if depth <= 0:
+        return False
+    for name in set(re.findall(r"[A-Za-z_][\w]*(?:::[A-Za-z_][\w]*)+", ty)):
+        n = mir.norm(name)
+        if n in seen or n not in fb.adts:
+            continue
+        seen.add(n)
+        for v in fb.adts[n]["variants"]:
+            for fld in v["fields"]:
+                if _holds_located(fb, fld["ty"], seen, depth - 1):
+                    return True
+    return False
+
+
+def located_debug_shows_position(fb):
+    """does `{:?}` of a Located<T> print its line / column?  True / False / None (cannot tell)"""
+    f = fb.find("<error::Located as std::fmt::Debug>::fmt", required=False)
+    if f is None or getattr(f, "missing", False):
+        return None
+    if f.derived:
+        return True                     # #[derive(Debug)] prints every field
+    sink = Sink()
+    try:
+        Machine(fb, max_visits=6, budget=200).run(f, [[Tok("data"), machine.some([777, 888])], sink])
+    except (absint.Stuck, absint.Loop):
+        return None
+    txt = fill(sink.text())[0]
+    if "777" in txt or "888" in txt:
+        return True
+    return False
+
+
+def rule_messages_position_free(ctx, rule):
+    """error messages: a `{:?}` placeholder whose argument holds source positions prints them, so the same mistake is reported with a
+    different text when the form is laid out differently (the position belongs in the LINE:COL prefix only)"""
+    from .ctx import where_of
+    fb = ctx.fb()
+    shows = located_debug_shows_position(fb)
+    n = 0
+    for f in fb.all("lib"):
+        if not (f.trait and "fmt::Display" in f.trait and f.name.endswith("::fmt") and "error::" in (f.self_ty or "") and "Located" not in (f.self_ty or "")):
+            continue
+        for b, t, pieces, kinds, ops in mir.format_calls(f):
+            if not pieces:
+                continue
+            lead = next((p for p in pieces if isinstance(p, str) and p.strip()), "?").strip()
+            for k, o in zip(kinds, ops):
+                if k != "debug":
+                    continue
+                l = mir.op_local(o)
+                ty = f.local_ty(l) if l is not None else ""
+                n += 1
+                key = "error-message/%s/%s" % ((f.self_ty or "?").rsplit("::", 1)[-1], lead[:40])
+                holds = _holds_located(fb, ty or "")
+                ctx.inst(rule, key, {"debug_argument": ty, "holds_positions": holds})
+                if not holds:
+                    ctx.oblige(True)
+                    continue
+                if shows is None:
+                    ctx.undecided(rule, key, "cannot tell what `{:?}` of a Located value prints", where_of(f, t))
+                    continue
+                ctx.oblige(not shows)
+                if shows:
+                    ctx.report(rule, key, "the message \"%s ...\" prints its argument (%s) with {:?}; that value holds source positions and "
+                               "Located's Debug prints them: the same error reads differently when the offending form is split across lines "
+                               "differently" % (lead, ty), where_of(f, t))
+    return n
